@@ -96,6 +96,7 @@ class Ctx(object):
         self.violations = {}           # key -> record
         self.extra = {}                # free-form evidence additions
         self.states = set()
+        self.states_extra = 0          # states counted by a visited table
         self.transitions = 0
         self.traces = 0
         self.caps = []
@@ -166,6 +167,7 @@ class Ctx(object):
         self.outcomes.update(d['outcomes'])
         self.classes.update(d['classes'])
         self.states |= d['states']
+        self.states_extra += d.get('states_extra', 0)
         self.transitions += d['transitions']
         self.traces += d['traces']
         self.caps += d['caps']
@@ -288,7 +290,7 @@ def write_evidence(ctx, mod, wall, n_viol, n_known):
         'known_findings_seen': n_known,
     }
     if ctx.level == 'model_checking':
-        cov['states'] = int(len(ctx.states))
+        cov['states'] = int(len(ctx.states) + ctx.states_extra)
         cov['transitions'] = int(ctx.transitions)
         cov['traces_validated_against_impl'] = int(ctx.traces)
     cov.update(jsonable(ctx.extra))
@@ -357,7 +359,7 @@ def main(argv=None):
     if n_new > printed:
         print('  ... and %d more distinct violations' % (n_new - printed))
     wall = time.time() - t0
-    if not a.replay:
+    if not a.replay and not os.environ.get('VERIF_NO_EVIDENCE'):
         write_evidence(ctx, mod, wall, n_new, n_known)
     print('%s %s tier=%s seed=%d evaluations=%d distinct=%d outcomes=%d '
           'violations=%d known=%d wall=%.1fs'
